@@ -41,6 +41,7 @@ pub struct Pool {
     pub respawns: u64,
     /// stop dispatching new jobs of a batch once this many jobs went over their CPU budget
     pub max_timeouts: usize,
+    pub fresh_process_per_job: bool,
 }
 
 impl Pool {
@@ -56,6 +57,7 @@ impl Pool {
             next_generation: 0,
             respawns: 0,
             max_timeouts: usize::MAX,
+            fresh_process_per_job: false,
         };
         for i in 0..n {
             let w = p.spawn(i);
@@ -65,13 +67,20 @@ impl Pool {
     }
 
     fn spawn(&mut self, idx: usize) -> WorkerProc {
-        let mut child = Command::new(&self.bin)
-            .arg("worker")
-            .stdin(Stdio::piped())
-            .stdout(Stdio::piped())
-            .stderr(Stdio::null())
-            .spawn()
-            .expect("spawn worker");
+        let mut tries = 0;
+        let mut child = loop {
+            match Command::new(&self.bin).arg("worker").stdin(Stdio::piped()).stdout(Stdio::piped()).stderr(Stdio::null()).spawn() {
+                Ok(c) => break c,
+                Err(e) => {
+                    tries += 1;
+                    if tries > 100 {
+                        eprintln!("harness error: cannot start a worker process: {}", e);
+                        std::process::exit(2);
+                    }
+                    std::thread::sleep(Duration::from_millis(100));
+                }
+            }
+        };
         let stdin = child.stdin.take().unwrap();
         let stdout = child.stdout.take().unwrap();
         let generation = self.next_generation;
@@ -179,6 +188,13 @@ impl Pool {
                                         self.sum_cpu_s += cpu.max(0.0);
                                         outstanding -= 1;
                                         on_result(b.job, JobResult::Done(v));
+                                        if self.fresh_process_per_job {
+                                            // one run per process: the heap (and any other process
+                                            // state) a run starts from is that of a fresh process,
+                                            // exactly what `replay` gives it
+                                            self.respawn(idx);
+                                            self.respawns -= 1;
+                                        }
                                     }
                                 }
                             }
